@@ -46,7 +46,7 @@ func vhText2(parent *etree.Element, tag, text string) *etree.Element {
 
 func vhAssertionEl(p string, sig int) *vhA {
 	a := &vhA{name: p, sig: sig,
-		ID: vString(p + ".ID"), Issuer: vString(p + ".Issuer"), NameID: vString(p + ".NameID"), Method: vString(p + ".Method"),
+		ID: vIDString(p + ".ID"), Issuer: vString(p + ".Issuer"), NameID: vString(p + ".NameID"), Method: vString(p + ".Method"),
 		Recipient: vString(p + ".Recipient"), NotOnOrAfter: vTimeStr(p + ".NotOnOrAfter"), CondNB: vTimeStr(p + ".Cond.NotBefore"),
 		CondNOA: vTimeStr(p + ".Cond.NotOnOrAfter"), Audience: vString(p + ".Audience"), AttrName: vString(p + ".Attr.Name"),
 		AttrValue: vString(p + ".Attr.Value"), SessionIndex: vString(p + ".SessionIndex")}
@@ -131,7 +131,7 @@ func vhResponseRoot(s *vhScenario, tag string) *etree.Element {
 	r := etree.NewElement(tag)
 	r.CreateAttr("xmlns:samlp", "urn:oasis:names:tc:SAML:2.0:protocol")
 	r.CreateAttr("xmlns:saml", "urn:oasis:names:tc:SAML:2.0:assertion")
-	s.ID, s.InResponseTo, s.Destination, s.Version = vString("resp.ID"), vString("resp.InResponseTo"), vString("resp.Destination"), vString("resp.Version")
+	s.ID, s.InResponseTo, s.Destination, s.Version = vIDString("resp.ID"), vString("resp.InResponseTo"), vString("resp.Destination"), vString("resp.Version")
 	r.CreateAttr("ID", s.ID)
 	r.CreateAttr("InResponseTo", s.InResponseTo)
 	r.CreateAttr("Destination", s.Destination)
@@ -212,6 +212,20 @@ func vhSSOScenario(maxKids, kinds int) *vhScenario {
 	n := vChoice("nChildren", maxKids+1)
 	for i := 0; i < n; i++ {
 		vhAddChild(s, i, kinds)
+	}
+	// distinct elements carry distinct IDs (ID collisions are resolved inside goxmldsig's reference lookup —
+	// dependency behaviour that is not part of the dsig.Validate contract used here)
+	ids := []string{s.ID}
+	for _, a := range s.order {
+		ids = append(ids, a.ID)
+	}
+	for _, a := range s.hidden {
+		ids = append(ids, a.ID)
+	}
+	for i := range ids {
+		for j := i + 1; j < len(ids); j++ {
+			vAssume(ids[i] != ids[j])
+		}
 	}
 	return s
 }
@@ -312,6 +326,7 @@ func vhSSO(maxKids, kinds int, modes int) {
 	enc := vEncodeDoc("wire", s.root, mode)
 
 	resp, err := sp.ValidateEncodedResponse(enc)
+	vDebugErr("ValidateEncodedResponse", err)
 
 	vAssert("C09.result-xor-error", (resp != nil) != (err != nil))
 	vAssert("C02.validation-context-uses-configured-store-and-sp-clock", vValidateCtxOK(sp))
@@ -330,9 +345,9 @@ func vhSSO(maxKids, kinds int, modes int) {
 	vAssert("C04.response-flag-iff-root-verified", resp.SignatureValidated == rootVerified)
 	// C01 (b): exact list
 	exp := vhExpected(s, rootVerified)
-	vAssert("C01.returned-assertions-are-exactly-the-verified-direct-children", len(resp.Assertions) == len(exp))
+	vAssert("C01,C07.returned-assertions-are-exactly-the-verified-direct-children", len(resp.Assertions) == len(exp))
 	if len(resp.Assertions) == len(exp) {
-		vAssert("C01.every-returned-assertion-field-for-field-equal-to-a-signed-one", vhSamePermutation(resp.Assertions, exp))
+		vAssert("C01,C04,C07,C08.every-returned-assertion-field-for-field-equal-to-a-signed-one", vhSamePermutation(resp.Assertions, exp))
 		vAssert("C11.returned-order-is-document-order(encrypted-or-not)", vhSameInOrder(resp.Assertions, exp))
 		for i := range exp {
 			if !rootVerified {
@@ -345,13 +360,13 @@ func vhSSO(maxKids, kinds int, modes int) {
 	// a bad assertion signature in an unsigned response is fatal (C02), as is an unsigned assertion (C01)
 	if !rootVerified {
 		for _, a := range s.order {
-			vAssert("C02.unverifiable-assertion-in-unsigned-response-is-fatal", a.sig == vhSigValid)
+			vAssert("C01,C02,C07.unverifiable-assertion-in-unsigned-response-is-fatal", a.sig == vhSigValid)
 		}
 	}
 	vAssert("C01.at-least-one-assertion", len(resp.Assertions) >= 1)
 	// root fields come from the (verified) root
-	vAssert("C04.root-fields-faithful", vAnd(vAnd(resp.ID == s.ID, resp.InResponseTo == s.InResponseTo), vAnd(resp.Destination == s.Destination, resp.Version == s.Version)))
-	vAssert("C04.root-issuer-faithful", resp.Issuer != nil && resp.Issuer.Value == s.Issuer)
+	vAssert("C04,C08.root-fields-faithful", vAnd(vAnd(resp.ID == s.ID, resp.InResponseTo == s.InResponseTo), vAnd(resp.Destination == s.Destination, resp.Version == s.Version)))
+	vAssert("C04,C08.root-issuer-faithful", resp.Issuer != nil && resp.Issuer.Value == s.Issuer)
 	// C03: profile checks hold on what is returned
 	vAssert("C03.accepted-response-passed-validate", vAnd(vAnd(resp.Version == "2.0", vOr(resp.Destination == "", resp.Destination == sp.AssertionConsumerServiceURL)),
 		resp.Status != nil && resp.Status.StatusCode != nil && resp.Status.StatusCode.Value == "urn:oasis:names:tc:SAML:2.0:status:Success"))
